@@ -38,9 +38,12 @@ Definition c_structure : lclass := 8%N.
 Definition c_tricache : lclass := 20%N.
 Definition c_imgcache : lclass := 21%N.
 Definition c_fresh : lclass := 22%N.
+(* a private attribute (._name) that the operation itself created: a cache, not part of the
+   model's public state; no query kind declares it, so measuring one breaks the tie *)
+Definition c_newprivate : lclass := 23%N.
 
 Definition hidden_class (c : lclass) : bool :=
-  N.eqb c c_tricache || N.eqb c c_imgcache || N.eqb c c_fresh.
+  N.eqb c c_tricache || N.eqb c c_imgcache || N.eqb c c_fresh || N.eqb c c_newprivate.
 
 Definition loc := (lclass * N)%type.
 Definition val := N.
